@@ -624,6 +624,22 @@ sgsitrf(superlu_options_t *options, SuperMatrix *A, int relax, int panel_size,
 
     *info = iinfo;
 
+    if ( iinfo > 0 ) {
+	/* A column whose candidates were all unusable (NaN, or reserved for
+	   later supernodes) is left without a pivot row by ilu_spivotL():
+	   give such columns the rows that are still free, so that perm_r
+	   is a permutation and L holds no row index -1. */
+	int *taken = int32Calloc(m);
+	for (i = 0; i < m; ++i)
+	    if ( perm_r[i] != SLU_EMPTY ) taken[perm_r[i]] = 1;
+	for (i = 0, k = 0; i < m && k < n; ++i)
+	    if ( perm_r[i] == SLU_EMPTY ) {
+		while ( k < n && taken[k] ) ++k;
+		if ( k < n ) perm_r[i] = k++;
+	    }
+	SUPERLU_FREE (taken);
+    }
+
     if ( m > n ) {
 	k = 0;
 	for (i = 0; i < m; ++i)
